@@ -1,6 +1,8 @@
 """C01 - structured control flow runs with its source-level meaning."""
 
 import copy
+import hashlib
+import json
 from fractions import Fraction
 
 import fw
@@ -8,7 +10,7 @@ import progen
 
 ID = 'C01'
 LEVEL = 'proof'
-LEAN_TARGETS = ['BareProofs.C01', 'BareProofs.C01Erase', 'BareProofs.C01Host']
+LEAN_TARGETS = ['BareProofs.C01', 'BareProofs.C01Erase', 'BareProofs.C01Host', 'BareProofs.C01Source', 'BareProofs.C01SourceInst']
 DRIVER = 'drv_c01'
 DRIVER_ROOT = 'Drv.C01'
 GEN = ['Consts']
@@ -33,6 +35,12 @@ THEOREMS = [
     'C01.hostImpl_not_noReserved', 'C01.hostLib_not_noReserved', 'C01.Demo.touching_program_differs',
     'C01.Demo.impl_pure_run', 'C01.Demo.impl_machine_run', 'C01.Demo.lib_pure_run',
     'C01.HostK.host_eq', 'C01.HostK.hostLib_eq',
+    # C01Source / C01SourceInst: from source TEXT - printer of structured programs + the text-level parser model (Parser.parseScript)
+    'C01.classify_printLine', 'C01.scriptLines_print', 'C01.parseScript_printLines', 'C01.parseScript_printLines_error',
+    'C01.parseScript_print', 'C01.parseScript_print_rejects', 'C01.source_then_run',
+    'C01.parseScript_printIndented', 'C01.parseScript_printPretty',
+    'C01.parseScript_printExpr', 'C01.parseScript_printExpr_rejects', 'C01.source_then_run_printExpr',
+    'C01.parseScript_printPretty_printExpr',
 ]
 ASSUMPTIONS = [
     'expression evaluation is shared between the reference reading and the implementation (C01 is about control flow; operators are C03)',
@@ -44,7 +52,10 @@ LEVEL_TEXT = ('Theorems, for structured programs of any depth and size and any h
               'every effect, statement count, divergence, budget exhaustion preserved), globally and for function bodies; composed as '
               'parse_then_run; (T3) ticks and hidden loop variables erase to the plain source-level big-step reading execS in both '
               'directions (termination included); (T4) parse_exec_structured composes T1, C08.cache_transparent, T2 and T3 for '
-              'Machine.execute. The Lean lowering (spec and mirror), machine and structured semantics are tied to parser.py/runtime.py by '
+              'Machine.execute; (T0, from source TEXT) parseScript_print / parseScript_printExpr: the whole text-level parser model (physical and '
+              'logical lines, the regex cascade, expression parsing, the stack algorithm, end-of-input checks) applied to the printed source text '
+              'of a structured program returns exactly the recursive lowering (any indentation: parseScript_printPretty), composed with T2 as '
+              'source_then_run. The Lean lowering (spec and mirror), machine and structured semantics are tied to parser.py/runtime.py by '
               'differential correspondence on grammar-generated programs; an independent Python big-step reading of the source is the '
               'oracle run against the implementation. Known finding F7 (continue inside while skips the condition test) is what the model '
               'encodes (while_continue_actual) and what the oracle reports.')
@@ -376,6 +387,21 @@ PRINT_CORPUS = [
 ]
 
 
+def _digest(model):
+    return hashlib.sha256(json.dumps(model, sort_keys=True, ensure_ascii=True).encode('utf-8')).hexdigest()
+
+
+def _lowering_witness(ctx, text, want, got):
+    """The real parser does not return the lowering of the program this text is the source of.  The witness carries the text, the first
+    statement where the two models differ, and a digest of the whole expected model (what replay() re-checks)."""
+    ws, gs = want.get('statements', []), (got.get('statements', []) if 'error' not in got else [])
+    at = next((i for i, (a, b) in enumerate(zip(ws, gs)) if a != b), min(len(ws), len(gs)))
+    ctx.witness('print-parse-lowering', {'text': text},
+                {'statement_index': at, 'statement': ws[at] if at < len(ws) else None, 'n_statements': len(ws)},
+                got if 'error' in got else {'statement_index': at, 'statement': gs[at] if at < len(gs) else None, 'n_statements': len(gs)},
+                expected_digest=_digest(want), explained_by_f7=False)
+
+
 def stream_print_parse(ctx, parser):
     rng = ctx.rng('print-parse')
     st = ctx.stream('print-parse',
@@ -417,9 +443,9 @@ def stream_print_parse(ctx, parser):
         ctx.compare('print-parse-pretty', pr.get('pretty'), impl_pretty, progen.round_script_numbers(lo.get('spec')))
         want = expected_model(prog)
         if impl_pretty != want and impl == want:
-            ctx.witness('print-parse-lowering', {'text': pr.get('pretty'), 'prog': prog}, want, impl_pretty, explained_by_f7=False)
+            _lowering_witness(ctx, pr.get('pretty'), want, impl_pretty)
         if impl != want:
-            ctx.witness('print-parse-lowering', {'text': text, 'prog': prog}, want, impl, explained_by_f7=False)
+            _lowering_witness(ctx, text, want, impl)
     if n_printable * 10 < len(progs) * 9:
         ctx.broken.append(f'correspondence stream print-parse: only {n_printable}/{len(progs)} generated programs are printable')
 
@@ -463,7 +489,7 @@ def replay(witness):
             got = progen.canon_script(parser.parse_script(inp['text']), with_fid=False)
         except Exception as exc:  # pylint: disable=broad-except
             got = {'error': f'{type(exc).__name__}: {getattr(exc, "error", exc)}'}
-        return got != witness['expected']
+        return _digest(got) != witness['expected_digest']
     model = parser.parse_script(inp['text'])
     impl = progen.strip_hidden(progen.run_impl(model, inp['globals'], max_statements=400))
     return impl != witness['expected']
